@@ -404,6 +404,10 @@ impl Transport for LocalTransport {
             // Every way of replacing this large existing file goes through a working file that is
             // renamed over it, so an interrupted run leaves the old or the new content, never a prefix.
             let temp_dest = crate::temp_file::temp_path_for(&dest);
+            // Whatever sits at the working name goes first: creating the working file THROUGH a
+            // symbolic link there (a link of that name preserved from the source, pointing back into
+            // it) overwrote the link's referent -- a file of the source tree
+            let _ = fs::remove_file(&temp_dest);
             let temp_guard = TempFileGuard::new(&temp_dest);
 
             if is_file_sparse(&source_meta) {
